@@ -29,6 +29,9 @@ ASSUMPTIONS = ["header['NAXIS2'] and the band tuple are Python ints",
 
 
 MUTANTS = [
+    ("compressed files recognised by truth value", "AegeanTools/fits_tools.py",
+     "    return all(a in header for a in\n",
+     "    return all(header.get(a) for a in\n", "C20-R8"),
     ("float truncation", "AegeanTools/fits_tools.py",
      "    row_max = header['NAXIS2'] * (band[0]+1) // band[1]",
      "    row_max = int(header['NAXIS2']/band[1] * (band[0]+1))", "C20-R1"),
@@ -374,6 +377,11 @@ def run(ctx):
     r5_planes(ctx, prog)
     r6_bscale(ctx, prog, fi)
     r7_fresh(ctx, prog)
+    ctx.rule("C20-R8", "compressed auxiliary files are recognised by the "
+             "PRESENCE of the BN_* keywords, so that a residual of 0 (axis a "
+             "multiple of the factor) still expands (shared with C15-R1)")
+    from .c15 import presence_rule
+    presence_rule(ctx, prog, "C20-R8")
 
 
 def _sliced_by(fnode, e, lo, hi, depth=0):
